@@ -95,4 +95,33 @@ theorem long_bracket_columns_exact :
   decide +kernel
 #print axioms long_bracket_columns_exact
 
+/-- the location rule of a token (`tokenLoc`, since the repair c8b21cc): under the bookkeeping facts the lexer
+    maintains — the token begins on or before the line it ends on, at or behind the start of that line; it ends at
+    or behind the start of its last line; a one-line token has from ≤ to; two positions on one line share its line
+    start — the reported Loc has non-negative columns and its start is not behind its end, for one-line and for
+    multi-line tokens alike -/
+theorem tokenLoc_wellformed (t : Token) (h1 : t.sline ≤ t.line) (h2 : t.slineStart ≤ t.from_)
+    (h3 : t.lineStart ≤ t.to) (h4 : t.from_ ≤ t.to) (h5 : t.sline = t.line → t.slineStart = t.lineStart) :
+    let l := tokenLoc t
+    0 ≤ l.sc ∧ 0 ≤ l.ec ∧ (l.sl < l.el ∨ (l.sl = l.el ∧ l.sc ≤ l.ec)) := by
+  unfold tokenLoc
+  by_cases hm : t.lineStart > t.from_
+  · simp only [hm, if_true]
+    refine ⟨by omega, by omega, ?_⟩
+    by_cases he : t.sline = t.line
+    · have := h5 he; omega
+    · left; omega
+  · simp only [hm, if_false]
+    refine ⟨by omega, by omega, Or.inr ⟨trivial, by omega⟩⟩
+#print axioms tokenLoc_wellformed
+
+/-- the rule it replaced (start = the end of the PREVIOUS token + 1, on the previous token's line) was ill formed
+    for a one-line long bracket behind a longer token: start column beyond the end column on the same line -/
+theorem old_multiline_rule_ill_formed :
+    let pre : Token := { valid := true, line := 3, lineStart := 40, from_ := 40, to := 52 }
+    let now : Token := { valid := true, line := 3, lineStart := 60, from_ := 53, to := 59 }  -- lineStart moved behind "]]"
+    let old : Loc := ⟨pre.line, pre.to - pre.lineStart + 1, now.line, now.to - now.lineStart⟩
+    old.sl = old.el ∧ old.sc > old.ec := by decide
+#print axioms old_multiline_rule_ill_formed
+
 end LuaHelper.C04
